@@ -24,13 +24,14 @@ def build(tier, seed):
         kern = Kernel(name='formatter')
         kern.files = {'src/lib.rs': text}
         kern.cargo_features = ['prettyplease']
-        kern.harnesses = [H('rustfmt_faults_are_not_fatal', timeout=1500, weight=3, desc='formatter = rustfmt: every child-process fault falls back to the unformatted tokens; only a failing writer is an error', sample={'spawn': 'ok|err', 'stdin': 'ok|err', 'stdout': '<=2 bytes, read error anywhere', 'wait': 'err | any raw status'}),
+        kern.harnesses = [H('rustfmt_faults_are_not_fatal', timeout=1500, weight=3, stubbing=True, desc='formatter = rustfmt: every child-process fault falls back to the unformatted tokens; only a failing writer is an error', sample={'spawn': 'ok|err', 'stdin': 'ok|err', 'stdout': '<=2 bytes, read error anywhere', 'wait': 'err | any raw status'}),
+                          H('rustfmt_closing_stdin_early_is_not_fatal', timeout=1500, weight=3, stubbing=True, desc='same with the child refusing its stdin (write error in the feeder thread)', sample={'stdin': 'err'}),
                           H('formatter_none_writes_tokens', timeout=900, desc='formatter = none', sample='Formatter::None'),
                           H('formatter_prettyplease_writes_unparsed', timeout=900, desc='formatter = prettyplease', sample='Formatter::Prettyplease')]
         kern.encoded = [enc('lib.rs', 'Bindings::write', w), enc('lib.rs', 'Bindings::rustfmt_path', rp), enc('lib.rs', 'Bindings::format_tokens', ft)]
         kern.stubs = ['std::process::{Command, Child, ChildStdin, ChildStdout, Stdio}: scripted child (symbolic Script)', 'io::{Write, Read, copy}: byte-wise traits with the same method names; io::copy = plain read/write loop',
                       'rewrite: ::std::thread::spawn -> verif_thread::spawn (runs the closure synchronously, join() returns its result)', 'proc_macro2::TokenStream::to_string() = "M"; prettyplease::unparse = "P"; header comment write! = "H"',
-                      'env::var("RUSTFMT"): nondeterministic', 'eprintln!/format!/warn!/debug_assert!: no-ops', 'ExitStatus: the real std type via ExitStatusExt::from_raw(any i32)']
+                      'env::var("RUSTFMT"): nondeterministic', 'eprintln!/format!/warn!/debug_assert!: no-ops', 'ExitStatus: the real std type via ExitStatusExt::from_raw(any i32)', '-Z stubbing: core::result::unwrap_failed -> plain panic (skips the {:?} formatting of the error)']
         kern.assumptions = ['the writer thread cannot run concurrently with the reader (synchronous stub): orderings and deadlocks are outside the model', 'formatter output <= 2 bytes']
         kern.bounds = ['output <= 2 bytes; raw lines <= 2; all 2^32 wait statuses; unwind 20']
         return [kern]
